@@ -95,3 +95,58 @@ Definition sorted_tests (unpack_outer : bool) (n : node) : res node exn :=
 
 (* run.py:list_test (ids that do not look like import failures) *)
 Definition list_test (n : node) : list id := iterate n.
+
+(* ---- run.py:TestProgram --load-list, run.py:186-198 ----
+   The list file is read in binary mode; a file is its bytes (numbers 0..255),
+   a test id is the bytes of its UTF-8 encoding.
+
+     lines = source.readlines()
+     test_ids = {line.strip().decode("utf-8") for line in lines}
+     self.test = filter_by_ids(self.test, test_ids)                      *)
+Definition bytes := list nat.
+Definition LF := 10.
+
+(* bytes.strip() without argument removes ASCII whitespace: \t \n \v \f \r and space *)
+Definition is_ws (b : nat) : bool :=
+  Nat.eqb b 9 || Nat.eqb b 10 || Nat.eqb b 11 || Nat.eqb b 12 || Nat.eqb b 13 || Nat.eqb b 32.
+
+(* a binary file's readlines(): pieces end after each \n (and only \n), which they keep;
+   no piece for the empty rest after a final \n *)
+Fixpoint readlines (f : bytes) : list bytes :=
+  match f with
+  | [] => []
+  | b :: r => if Nat.eqb b LF then [b] :: readlines r
+              else match readlines r with
+                   | [] => [[b]]
+                   | l :: ls => (b :: l) :: ls
+                   end
+  end.
+
+Fixpoint lstrip (l : bytes) : bytes :=
+  match l with
+  | b :: r => if is_ws b then lstrip r else l
+  | [] => []
+  end.
+Definition rstrip (l : bytes) : bytes := rev (lstrip (rev l)).
+Definition strip (l : bytes) : bytes := rstrip (lstrip l).
+
+(* the id set built from the file *)
+Definition load_ids (f : bytes) : list bytes := map strip (readlines f).
+
+Definition bytes_eqb : bytes -> bytes -> bool := list_eqb Nat.eqb.
+Fixpoint memb (x : bytes) (l : list bytes) : bool :=
+  match l with [] => false | y :: r => bytes_eqb x y || memb x r end.
+
+(* test.id() of the case numbered i, from the table of names the tests were built with *)
+Definition in_load_list (names : list bytes) (f : bytes) (i : id) : bool :=
+  match nth_error names i with
+  | Some nm => memb nm (load_ids f)
+  | None => false
+  end.
+
+(* what `run --list` prints, what `run --load-list f` executes and what
+   `run --list --load-list f` prints, as test numbers in order *)
+Definition cli_list (n : node) : list id := list_test n.
+Definition cli_load (names : list bytes) (f : bytes) (n : node) : node :=
+  filter_ids (in_load_list names f) n.
+Definition cli_run (n : node) : list id := iterate n.
